@@ -250,12 +250,36 @@ def collect():
     except Exception as e:
         pg_text = 'exc:' + type(e).__name__
     pg_keeps_literal = "'a`b'" in pg_text
+    # --- Tie B: what `getattr(sa.func, name)` yields, by name class
+    from sqlalchemy.sql import functions as F
+
+    def func_class(n):
+        try:
+            v = getattr(sa.func, n)
+        except AttributeError:
+            return 'missing'
+        return 'gen' if isinstance(v, F._FunctionGenerator) else 'pyattr'
+    func_py_attrs = sorted((n, func_class(n)) for n in dir(sa.func))
+    # the rule of _FunctionGenerator.__getattr__ for names that are NOT attributes: `__x` -> AttributeError, else a generator
+    probes = ['__a__', '__foo', '__', '___', '__x_', 'a', 'a_', '_', '_x', 'count', 'opts_', 'x__', 'Repr', 'class', 'None']
+    dunder_rule = all(func_class(n) == ('missing' if n.startswith('__') else 'gen') for n in probes if n not in dict(func_py_attrs))
+
+    def guard_probe(name):
+        try:
+            v = r0.to_function(A.Function(name, []))
+        except NotImplementedError:
+            return True
+        except Exception:
+            return False
+        return isinstance(v, sa.sql.ClauseElement)
+    func_guard = all(guard_probe(n) for n, c in func_py_attrs if c == 'pyattr')
     return dict(types_map=tm[DIALECT_NAMES[0]], types_uniform=uniform, dialects=dn, dialect_keys=init_dict,
                 methods=dicts.get('methods', []), functions=[k for k, _ in dicts.get('functions', [])],
                 opmap=dicts.get('opmap', []), caught=caught, regexes=regexes, type_assigns=type_assigns,
                 create_table_literals=pct, join_literals=join_lits, attr_stores=sorted(set(attr_stores)), param_writes=sorted(set(param_writes)),
                 list_ops=list_ops, text_has=text_has, tuple_is_list=tuple_is_list, dup_exc=dup_exc,
-                pg_keeps_literal=pg_keeps_literal, pg_probe=pg_text)
+                pg_keeps_literal=pg_keeps_literal, pg_probe=pg_text, func_py_attrs=func_py_attrs, dunder_rule=dunder_rule,
+                func_guard=func_guard)
 
 
 def emit(d):
@@ -280,6 +304,12 @@ def emit(d):
          'def dupExc : String := ' + lean_str(d['dup_exc']),
          '/-- probed: the postgres fallback keeps a back-tick that is inside a string literal (%s) -/' % d['pg_probe'].replace('-/', ''),
          'def pgKeepsLiteral : Bool := ' + ('true' if d['pg_keeps_literal'] else 'false'),
+         '/-- probed: every attribute name of the object `sa.func` and what `getattr(sa.func, name)` is ("gen" = a _FunctionGenerator, "pyattr" = a python attribute, "missing") -/',
+         'def funcPyAttrs : List (String × String) := ' + pairs(d['func_py_attrs']),
+         '/-- probed on sample names: a name that is NOT an attribute of `sa.func` gives AttributeError iff it starts with `__`, else a generator -/',
+         'def funcDunderRule : Bool := ' + ('true' if d['dunder_rule'] else 'false'),
+         '/-- probed: `to_function` on every python-attribute name raises NotImplementedError (never returns a non-SQL value) -/',
+         'def funcGuard : Bool := ' + ('true' if d['func_guard'] else 'false'),
          '/-- exception classes named in the `except` clause of get_exec_params -/',
          'def caught : List String := ' + lean_list(lean_str(x) for x in d['caught']),
          '/-- regex literals of get_type, in order, and its assignments -/',
